@@ -1,2 +1,283 @@
+"""C16 - `cfn-guard test` agrees with `cfn-guard validate` (also the test halves of C06 / C12)."""
+import json, os, random, re, xml.etree.ElementTree as ET
+from common import *
+import cli, clitrace
+
+STAT = ["PASS", "FAIL", "SKIP"]
+
+
+def tests_yaml(cases):
+    out = []
+    for k, c in enumerate(cases):
+        out.append("- name: case%d" % (k + 1))
+        out.append("  input: " + c["text"])
+        out.append("  expectations:")
+        if c["exp"]:
+            out.append("    rules:")
+            for n, s in c["exp"]:
+                out.append("      %s: %s" % (n, s))
+        else:
+            out.append("    rules: {}")
+    return "\n".join(out) + "\n"
+
+
+PLAIN_FAIL = re.compile(r"^\s+(\S+): Expected = (\w+), Evaluated = \[(.*)\]$")
+PLAIN_PASS = re.compile(r"^\s+(\S+): Expected = (\w+)$")
+PLAIN_NOEXP = re.compile(r"^\s+No Test expectation was set for Rule (\S+)$")
+
+
+def parse_plain(so):
+    cases, cur, sect = [], None, None
+    for line in cli.strip_ansi(so).split("\n"):
+        if line.startswith("Test Case #"):
+            cur = {"passed": [], "failed": [], "noexp": []}
+            cases.append(cur)
+            sect = None
+            continue
+        if cur is None:
+            continue
+        m = PLAIN_NOEXP.match(line)
+        if m:
+            cur["noexp"].append(m.group(1))
+            continue
+        if line.strip() == "PASS Rules:":
+            sect = "P"
+            continue
+        if line.strip() == "FAIL Rules:":
+            sect = "F"
+            continue
+        m = PLAIN_FAIL.match(line)
+        if m and sect == "F":
+            ev = [x.strip() for x in m.group(3).split(",") if x.strip()]
+            cur["failed"].append([m.group(1), m.group(2), ev])
+            continue
+        m = PLAIN_PASS.match(line)
+        if m and sect == "P":
+            cur["passed"].append([m.group(1), m.group(2)])
+    return cases
+
+
+def parse_structured(j):
+    """list (dir mode) or object (single) of test results -> cases of the first rules file"""
+    if isinstance(j, list):
+        j = j[0] if j else {}
+    cases = []
+    for tc in j.get("test_cases", []):
+        cases.append({"passed": [[r["name"], r["evaluated"]] for r in tc["passed_rules"]],
+                      "failed": [[r["name"], r["expected"], r["evaluated"]] for r in tc["failed_rules"]],
+                      "noexp": [r["name"] for r in tc["skipped_rules"]]})
+    return cases
+
+
+def parse_junit(so, ncases):
+    try:
+        root = ET.fromstring(so)
+    except ET.ParseError:
+        return None
+    cases = [{"passed": [], "failed": [], "noexp": None} for _ in range(ncases)]
+    for tc in root.iter("testcase"):
+        cid = tc.get("id") or ""
+        m = re.match(r"case(\d+)$", cid)
+        if not m:
+            continue
+        k = int(m.group(1)) - 1
+        if k >= ncases:
+            continue
+        f = tc.find("failure")
+        if f is not None:
+            mm = re.match(r"Expected = (\w+), Evaluated = \[(.*)\]", f.text or "")
+            if mm:
+                cases[k]["failed"].append([tc.get("name"), mm.group(1), [x.strip() for x in mm.group(2).split(",") if x.strip()]])
+        elif tc.get("status") == "pass":
+            cases[k]["passed"].append([tc.get("name"), None])
+    return cases
+
+
+def run_test_cmd(wd, i, c, cases, layout, fmt):
+    base = "t%d" % i
+    if layout == "dir":
+        wd.write("%s/rules.guard" % base, c["rules"])
+        wd.write("%s/tests/rules_tests.yaml" % base, tests_yaml(cases))
+        args = ["test", "--dir", os.path.join(wd.path, base)]
+    else:
+        rp = wd.write("%s/rules.guard" % base, c["rules"])
+        tp = wd.write("%s/rules_tests.yaml" % base, tests_yaml(cases))
+        args = ["test", "-r", rp, "-t", tp]
+    if fmt != "plain":
+        args += ["-o", fmt]
+    rc, so, se = cli.run(args)
+    obs = {"exit": rc, "wf": True, "cases": [], "junit": fmt == "junit"}
+    try:
+        if fmt == "plain":
+            obs["cases"] = parse_plain(so)
+        elif fmt == "json":
+            obs["cases"] = parse_structured(json.loads(so))
+        elif fmt == "yaml":
+            j = cli.yaml_to_json(so)
+            if j is None:
+                obs["wf"] = False
+            else:
+                obs["cases"] = parse_structured(j)
+        else:
+            cs = parse_junit(so, len(cases))
+            if cs is None:
+                obs["wf"] = False
+            else:
+                obs["cases"] = cs
+    except (ValueError, KeyError, TypeError):
+        obs["wf"] = False
+    return obs, args, so, se
+
+
+def validate_on(wd, i, c, cases):
+    """`validate --structured` on each extracted input: per-rule statuses (from the print-json record)"""
+    out = []
+    rp = wd.write("t%d/v_rules.guard" % i, c["rules"])
+    for k, cs in enumerate(cases):
+        dp = wd.write("t%d/v_in%d.json" % (i, k), cs["text"])
+        rc, so, se = cli.run(["validate", "-r", rp, "-d", dp, "-S", "none", "-p"])
+        rules = []
+        ok = False
+        try:
+            docs = cli.split_json_docs(so)
+            for d in docs:
+                if "container" in d and "FileCheck" in (d["container"] or {}):
+                    for ch in d["children"]:
+                        r = ch["container"].get("RuleCheck")
+                        if r:
+                            rules.append([r["name"], r["status"]])
+                    ok = True
+        except (ValueError, KeyError, TypeError):
+            ok = False
+        out.append({"ok": ok, "rules": rules})
+    return out
+
+
+def record(res, tier, tr):
+    n = 30 if tier == "quick" else 500
+    rnd = random.Random(seed() + 16)
+    wd = cli.Workdir("c16")
+    i = 0
+    fmts = ["plain", "json", "yaml", "junit"]
+    with open(tr, "w") as f:
+        for ci, cfg in enumerate(["core", "dups", "full"]):
+            pairs = clitrace.gen_pairs(seed() * 4243 + ci, n, cfg)
+            for k, c in enumerate(pairs):
+                names = sorted({r["n"] for r in c["prog"]["rules"]})
+                ncases = 1 + rnd.randrange(4)
+                cases = []
+                for q in range(ncases):
+                    src = pairs[(k + q) % len(pairs)]
+                    exp = []
+                    for nm in names:
+                        if rnd.random() < 0.75:
+                            exp.append([nm, rnd.choice(STAT)])
+                    if rnd.random() < 0.2:
+                        exp.append(["no_such_rule", "PASS"])
+                    cases.append({"doc": src["doc"], "text": src["data"], "exp": exp})
+                layout = "dir" if (k % 3 == 0) else "single"
+                fmt = fmts[k % 4]
+                i += 1
+                obs, args, so, se = run_test_cmd(wd, i, c, cases, layout, fmt)
+                obs["validate"] = validate_on(wd, i, c, cases)
+                if fmt == "junit":
+                    # junit shows neither the rules without expectation nor the evaluated status of passes
+                    for cs_ in obs["cases"]:
+                        cs_["noexp"] = cs_["noexp"] or []
+                line = {"i": i, "prog": c["prog"], "cases": [{"doc": x["doc"], "exp": x["exp"]} for x in cases],
+                        "layout": layout, "fmt": fmt, "obs": obs,
+                        "cmd": {"args": [a.replace(wd.path + "/", "") for a in args], "stderr": se[:500], "stdout_head": so[:400]}}
+                f.write(json.dumps(line) + "\n")
+    wd.close()
+    return i
+
+
+def normalise_for_format(line):
+    """junit: fill what the format does not show from the expectations so that TraceTest can
+    compare the rest (passed evaluated = expected; rules without expectation are not listed)"""
+    if line["fmt"] != "junit" or not line["obs"]["wf"]:
+        return
+    for k, c in enumerate(line["obs"]["cases"]):
+        exp = {n: s for n, s in line["cases"][k]["exp"]} if k < len(line["cases"]) else {}
+        for p in c["passed"]:
+            p[1] = exp.get(p[0], "?")
+        c["noexp_hidden"] = True
+
+
+def run_trace(res, tier):
+    tr = os.path.join(WORK, "trace_C16.ndjson")
+    n = record(res, tier, tr)
+    lines = [json.loads(l) for l in open(tr)]
+    for l in lines:
+        normalise_for_format(l)
+    # the set of rules without expectation is not shown by junit: give TraceTest the specification-independent
+    # complement (all rule names of the file minus those with a shown result)
+    for l in lines:
+        if l["fmt"] == "junit":
+            names = sorted({r["n"] for r in l["prog"]["rules"]})
+            for k, c in enumerate(l["obs"]["cases"]):
+                shown = {p[0] for p in c["passed"]} | {x[0] for x in c["failed"]}
+                c["noexp"] = [n for n in names if n not in shown]
+    with open(tr, "w") as f:
+        for l in lines:
+            f.write(json.dumps(l) + "\n")
+    r = tlc("TraceTest", env={"TRACE": tr}, workers=1, timeout=3000, tag="ttest" + res.prop, heap="6g")
+    if "TRACE-REJECTED" in r["out"] or not r["ok"]:
+        log(r["out"][-3000:])
+        raise ToolError("TraceTest did not consume the whole trace")
+    res.add("states", r["distinct"])
+    res.add("transitions", r["states"])
+    by_i = {l["i"]: l for l in lines}
+    seen = {}
+    for t in tlc_tuples(r["out"], "RELATE"):
+        i, verdict, name = t[1], t[2], t[3]
+        seen[name] = seen.get(name, 0) + 1
+        res.add("relations_checked")
+        if verdict == "ok":
+            res.add("traces_validated_against_impl")
+        else:
+            l = by_i[i]
+            res.violation("test:%s:%s/%s" % (name, l["fmt"], l["layout"]), {"relation": name, "line": l})
+    res.cov["relations"] = seen
+    res.add("evaluations", n)
+    for l in lines[:2]:
+        res.sample({"test_line": {k: l[k] for k in ("layout", "fmt", "cmd")}, "cases": l["cases"][:1], "shown": l["obs"]["cases"][:1], "exit": l["obs"]["exit"]})
+    os.remove(tr)
+    return n
+
+
 def test_exit_codes(res, tier):
-    pass
+    """C06's `test` half: exit 0 / 7 / non-zero, judged by TraceTest's `exit` relation"""
+    run_trace(res, tier)
+    # files that do not parse: a non-zero exit, never 0
+    wd = cli.Workdir("c16x")
+    rp = wd.write("b.guard", "rule broken {\n a == \n}\n")
+    tp = wd.write("b_tests.yaml", "- name: c\n  input: {}\n  expectations:\n    rules: {}\n")
+    rc, so, se = cli.run(["test", "-r", rp, "-t", tp])
+    if rc == 0:
+        res.violation("test:exit:broken-rules-file-exits-0", {"args": ["test", "-r", "b.guard", "-t", "b_tests.yaml"], "exit": rc, "stdout": so[:500]})
+    rp = wd.write("g.guard", "rule r { a exists }\n")
+    tp = wd.write("g_tests.yaml", "- name: c\n  input: {\n")
+    rc, so, se = cli.run(["test", "-r", rp, "-t", tp])
+    if rc == 0:
+        res.violation("test:exit:broken-test-file-exits-0", {"args": ["test", "-r", "g.guard", "-t", "g_tests.yaml"], "exit": rc, "stdout": so[:500]})
+    res.add("evaluations", 2)
+    wd.close()
+
+
+def run(tier):
+    res = Result("C16", tier, "model_checking")
+    res.assumptions = ["expectations are drawn at random (about one third correct); rules files include files with repeated rule names",
+                       "JUnit shows neither rules without expectation nor the evaluated status of met expectations; those are not compared for that format"]
+    run_trace(res, tier)
+    res.cov["rule"] = ("random rules files (incl. repeated rule names) x 1-4 inputs x random expectations x {single file, --dir} x "
+                       "{plain, json, yaml, junit}; per test case the met / unmet / no-expectation sets, the evaluated statuses and the "
+                       "exit code judged by TraceTest against Denote of that input; evaluated statuses cross-checked against "
+                       "`validate` on the extracted input")
+    return res.finish()
+
+
+def replay(path):
+    case = json.load(open(path))
+    print(json.dumps(case)[:3000])
+    return 1
